@@ -577,13 +577,16 @@ pub struct Sched {
     /// marker, the harness catches it and discards the run). Some library functions recurse without consuming frames
     /// (e.g. std.prune on an infinitely deep lazy object) and would otherwise run until memory is exhausted.
     pub step_limit: u64,
+    /// collections this schedule may still order (a count, so deterministic): bounds the cost of dense schedules over
+    /// long evaluations; once used up the schedule answers Skip
+    pub max_collections: u64,
 }
 
 pub const STEP_BUDGET_MARKER: &str = "harness: step budget exceeded";
 
 impl Sched {
     pub fn new(mode: SchedMode, audit: AuditMode, rng: Rng) -> Self {
-        Sched { mode, audit, rng, base: 0, collected: Vec::new(), last_objects: 0, pending_before: None, stats: SchedStats::default(), track_kinds: true, step_limit: 250_000 }
+        Sched { mode, audit, rng, base: 0, collected: Vec::new(), last_objects: 0, pending_before: None, stats: SchedStats::default(), track_kinds: true, step_limit: 250_000, max_collections: u64::MAX }
     }
 
     pub fn decide(&mut self, pt: &GcPoint) -> GcDecision {
@@ -621,6 +624,7 @@ impl Sched {
             SchedMode::AfterGrowth => grew && self.rng.below(4) < 3,
             SchedMode::Explicit(set) => set.contains(&rel),
         };
+        let collect = collect && self.stats.collections < self.max_collections;
         let audit = match self.audit {
             AuditMode::None => false,
             AuditMode::AtCollect => collect,
